@@ -18,7 +18,7 @@ type c15Step struct {
 	Slot  int   `json:"slot"`  // probe time: the slot-th half-second window after init
 	Route int   `json:"route"` // instance whose fresh cursor carries the script forward
 	Probe []int `json:"probe"` // instances the continuation is presented to (Route is always among them); others meet the stream later, with a later cursor
-	Evict []int `json:"evict"` // instances that serve an unrelated stream's /init first (evicts a 1-entry cache)
+	Evict []int `json:"evict"` // instances that serve an unrelated stream's /init first (evicts a 1- or 2-entry cache)
 }
 
 type c15Script struct {
@@ -34,12 +34,12 @@ type c15Case struct {
 
 func genC15(t *rapid.T) c15Case {
 	var c c15Case
-	n := 8
+	n := 16
 	for i := 0; i < n; i++ {
 		s := c15Script{TTL: rapid.IntRange(2, 3).Draw(t, "ttl")}
 		ninst := rapid.IntRange(3, 4).Draw(t, "ninst")
 		for j := 0; j < ninst; j++ {
-			s.Caches = append(s.Caches, []int{0, 1, -1, -1}[rapid.IntRange(0, 3).Draw(t, "cache")])
+			s.Caches = append(s.Caches, []int{0, 1, 1, 2, -1, -1}[rapid.IntRange(0, 5).Draw(t, "cache")])
 		}
 		s.Init = rapid.IntRange(0, ninst-1).Draw(t, "init")
 		slot := 0
@@ -54,7 +54,7 @@ func genC15(t *rapid.T) c15Case {
 				if j == st.Route || rapid.IntRange(0, 2).Draw(t, "probe") != 0 {
 					st.Probe = append(st.Probe, j)
 				}
-				if rapid.IntRange(0, 4).Draw(t, "evict") == 0 {
+				if rapid.IntRange(0, 2).Draw(t, "evict") == 0 {
 					st.Evict = append(st.Evict, j)
 				}
 			}
@@ -139,8 +139,11 @@ func runScript(idx int, s c15Script) (r c15Result) {
 			probe = []int{st.Route}
 		}
 		for _, j := range st.Evict {
-			other := lib.CallSpec{Kind: "stream", Method: "s_exch", CancelAt: -1, Stream: &lib.StreamScript{ID: id + "-other", InitOutcome: "ok"}}
-			lib.HTTPInit(handlers[j%len(handlers)], "", other, nil)
+			// two unrelated streams: enough to push this one out of a 1- or 2-entry cache
+			for k := 0; k < 2; k++ {
+				other := lib.CallSpec{Kind: "stream", Method: "s_exch", CancelAt: -1, Stream: &lib.StreamScript{ID: id + "-other", InitOutcome: "ok"}}
+				lib.HTTPInit(handlers[j%len(handlers)], "", other, nil)
+			}
 		}
 		decisions := make([]bool, len(handlers))
 		fresh := make([]string, len(handlers))
@@ -220,7 +223,7 @@ func runC15(c c15Case) (out lib.Outcome) {
 
 var propC15 = lib.Prop[c15Case]{
 	ID: "C15",
-	Rule: "each case runs 8 timed exchange scripts concurrently: TTL 2-3 s, 3-4 server instances sharing the token key with call-cache sizes from {0,1,default}, 2-5 continuation steps at half-second slots up to TTL+1.5 s after init, each step presenting the same continuation to every instance and carrying on with a drawn instance's fresh cursor; probes are placed >= 300 ms from every whole-second expiry boundary (ages are whole seconds) and a step whose probes took too long is discarded, not judged. " +
+	Rule: "each case runs 16 timed exchange scripts concurrently: TTL 2-3 s, 3-4 server instances sharing the token key with call-cache sizes from {0,1,2,default}, 2-5 continuation steps at half-second slots up to TTL+1.5 s after init, each step presenting the same continuation to a drawn subset of the instances (some of which first serve two unrelated streams, evicting small caches) and carrying on with a drawn instance's fresh cursor; probes are placed >= 300 ms from every whole-second expiry boundary (ages are whole seconds) and a step whose probes took too long is discarded, not judged. " +
 		"Oracle: all instances decide alike, and the decision is 'accept iff cursor and call token are both within TTL'. Non-trivial: a probe after the call token's expiry on an instance that saw the stream earlier.",
 	Gen:          genC15,
 	Run:          runC15,
